@@ -286,8 +286,11 @@ def check(ctx):
 
     # ---- all state assignments in the manager class ---------------------------------
     man = repo.cls(MAN)
+    # the manager's methods wherever the hierarchy keeps them (mixins of the package included; AsyncTasks is the task
+    # registry, a component in its own right, not manager logic)
+    _man_methods = [f_ for f_ in repo.all_methods(man).values() if f_.cls is not None and f_.cls.short != "AsyncTasks"]
     all_state = []
-    for m in man.methods.values():
+    for m in _man_methods:
         if m.name == "__init__":
             continue
         g2, rs = rows_of(m)
@@ -305,7 +308,7 @@ def check(ctx):
                f"CONNECTED assigned without `_facade is not None` holding (L{r.node.lineno}); guards {sorted(r.facts)}", loc(r.fi, r.node.ast))
     # facade built only under SPA_READY
     fac_sites = []
-    for m in man.methods.values():
+    for m in _man_methods:
         gm = cfg_of(m)
         for n in gm.stmt_nodes():
             if assigns_attr(n, "self._facade") and isinstance(n.ast, ast.Assign) and not (isinstance(n.ast.value, ast.Constant) and n.ast.value.value is None):
@@ -397,7 +400,7 @@ def check(ctx):
         return may_raise_cache[k]
 
     n_checked = 0
-    for m in man.methods.values():
+    for m in _man_methods:
         gm = cfg_of(m)
         drops = [n for n in gm.stmt_nodes() if isinstance(n.ast, ast.Assign) and any(ast.unparse(t_) == "self._facade" for t_ in n.ast.targets)
                  and isinstance(n.ast.value, ast.Constant) and n.ast.value.value is None]
